@@ -54,11 +54,14 @@ var gateDefs = []gateDef{
 		ref: func(p *big.Int, x []*big.Int) *big.Int {
 			return mod(p, new(big.Int).Add(new(big.Int).Mul(x[0], x[1]), x[2]))
 		},
-		fe: func(api gkr.GateAPI, x ...frontend.Variable) frontend.Variable { return api.MulAcc(x[2], x[0], x[1]) }},
+		// MulAcc may mutate its first argument in place: accumulate into a fresh copy, as its documentation requires
+		fe: func(api gkr.GateAPI, x ...frontend.Variable) frontend.Variable {
+			return api.MulAcc(api.Mul(x[2], 1), x[0], x[1])
+		}},
 	// x^3
 	{name: "c19_cube", nbIn: 1, degree: 3,
-		ref: func(p *big.Int, x []*big.Int) *big.Int { return new(big.Int).Exp(x[0], big.NewInt(3), p) },
-		fe:  func(api gkr.GateAPI, x ...frontend.Variable) frontend.Variable { return api.Mul(x[0], x[0], x[0]) },
+		ref:  func(p *big.Int, x []*big.Int) *big.Int { return new(big.Int).Exp(x[0], big.NewInt(3), p) },
+		fe:   func(api gkr.GateAPI, x ...frontend.Variable) frontend.Variable { return api.Mul(x[0], x[0], x[0]) },
 		opts: []gkr.RegisterGateOption{gkr.WithDegree(3), gkr.WithNoSolvableVar()}},
 	// x^2*y^2 + x
 	{name: "c19_quart", nbIn: 2, degree: 4,
